@@ -169,7 +169,7 @@ Proof.
   - unfold s_merge. destruct (N.eqb g g2); [exact H|]. destruct (negb (pg_graph_exists (sg s) g2)); [exact H|].
     destruct (find_node (sg s) g n) as [u|]; [|exact H]. destruct (find_node (sg s) g2 n) as [v|]; [|exact H].
     destruct (nx_node (sg s) u); [|exact H]. destruct (nx_node (sg s) v); [|exact H].
-    destruct pol as [pp|]; cbn [fst]; [destruct (merge_props _ _ _ _); cbn [fst]|]; apply Kset; apply EDist_strip; now apply EDist_contract.
+    destruct pol as [pp|]; cbn [fst]; [destruct (merge_props _ _ _ _); cbn [fst]; [|exact H]|]; apply Kset; apply EDist_strip; now apply EDist_contract.
 Qed.
 
 Theorem EDist_run ops : forall s, EDist (sg s) -> EDist (sg (srun ops s)).
@@ -295,7 +295,7 @@ Proof.
       rewrite A1 in B1. inversion B1; subst p2. apply Eg. eapply has_val_inj; eauto. }
     assert (Hc : EClosed (strip_contraction u (contract (sg s) u v))).
     { apply closed_strip. apply closed_contract; auto. eapply found_in_ids_G; eauto. }
-    destruct pol as [pp|]; cbn [fst]; [destruct (merge_props _ _ _ _); cbn [fst]|]; now apply closed_set_node.
+    destruct pol as [pp|]; cbn [fst]; [destruct (merge_props _ _ _ _); cbn [fst]; [|exact H]|]; now apply closed_set_node.
 Qed.
 
 Theorem clone_invariants_run ops : forall s,
